@@ -1422,3 +1422,15 @@ MUTANTS += [
       edits=[(TA, '\tif strings.IndexByte(joinCode, 0) >= 0 || len(joinCode) > sha256.BlockSize {\n\t\treturn nil, fmt.Errorf("invalid join code")\n\t}\n', '\tif err := checkJoinCode(joinCode); err != nil {\n\t\treturn nil, err\n\t}\n'),
              (TA, '\nfunc computeAuthMac(', '\nfunc checkJoinCode(code string) error {\n\tif strings.IndexByte(code, 0) >= 0 {\n\t\treturn fmt.Errorf("invalid join code")\n\t}\n\tif len(code) > sha256.BlockSize {\n\t\treturn fmt.Errorf("invalid join code")\n\t}\n\treturn nil\n}\n\nfunc computeAuthMac(')]),
 ]
+
+# --- F74 ---
+MUTANTS += [
+ dict(id='F74-undo-mark-unconfirmed', props=['C06', 'C05'], expect='R-UNCONFIRMED-NOT-CLAIMED/unconfirmed/report/',
+      edits=[(MS, '\t\t\t\tstate.sidecar.MarkUnconfirmed(uint32(highest))\n', '')]),
+ dict(id='F74-unconfirmed-only-for-a-known-hash', props=['C06'], expect='R-UNCONFIRMED-NOT-CLAIMED/unconfirmed/report/',
+      edits=[(MS, '\t\t\t\tif ok {\n\t\t\t\t\tinfo.LastVerifiedHash = hashValue\n\t\t\t\t} else {\n\t\t\t\t\tinfo.LastVerifiedHash = resumeHashUnknown\n\t\t\t\t}\n', '\t\t\t\tif ok {\n\t\t\t\t\tinfo.LastVerifiedHash = hashValue\n\t\t\t\t} else {\n\t\t\t\t\tinfo.LastVerifiedHash = resumeHashUnknown\n\t\t\t\t\treturn info, nil\n\t\t\t\t}\n')]),
+ dict(id='F74-undo-flush-clears-the-bit', props=['C06', 'C05'], expect='R-UNCONFIRMED-NOT-CLAIMED/unconfirmed/flush',
+      edits=[(SC, '\tif s.hasUnconfirmed && int(s.unconfirmed/8) < len(bitmap) {\n\t\tbitmap[s.unconfirmed/8] &^= 1 << (s.unconfirmed % 8)\n\t}\n', '')]),
+ dict(id='F74-confirm-on-every-finalisation', props=['C06'], expect='R-UNCONFIRMED-NOT-CLAIMED/unconfirmed/release/',
+      edits=[(MS, '\t\t\tif ok {\n\t\t\t\t// Complete: FileEnd is in and every frame it announced was processed, so\n\t\t\t\t// the chunk that was handed in for comparison was found good or replaced.\n\t\t\t\tstate.sidecar.Confirm()\n\t\t\t}\n', '\t\t\tstate.sidecar.Confirm()\n')]),
+]
